@@ -190,7 +190,7 @@ def job_core(payload):
                 out["bound_reads"] = out.get("bound_reads", 0) + 1
                 relations(d, 'let Sq04 := [ 1 , [ 2 ] ] ; let St04 := "ab" ; ( %s ) Sq04 St04' % ptxt, etxt, e2txt, "", bad, out, "core", bound_e)
             elif blockname is not None:
-                relations(d, "let Bk04 := { %s } ; ( %s )" % (blockname, ptxt), etxt, e2txt, "", bad, out, "core", bound_e)
+                relations(d, "let Bk04 := %s ; ( %s )" % (blockname, ptxt), etxt, e2txt, "", bad, out, "core", bound_e)
             else:
                 relations(d, "( %s )" % ptxt, etxt, e2txt, "", bad, out, "core", bound_e)
         except common.DriverCrash as ex:
